@@ -142,15 +142,19 @@ Fixpoint graft (fuel : nat) (node : json) (path : list step) (rs : list json) : 
       match node with
       | JNull => Some (JNull, rs)
       | JArr l =>
-          match fold_left (fun acc e =>
-                  match acc with
-                  | None => None
-                  | Some (done, rs') =>
-                      match graft fuel' e path rs' with
-                      | Some (e', rs'') => Some (done ++ [e'], rs'')
-                      | None => None
-                      end
-                  end) l (Some ([], rs)) with
+          match (fix go (l : list json) (rs : list json) {struct l} : option (list json * list json) :=
+                   match l with
+                   | [] => Some ([], rs)
+                   | e :: t =>
+                       match graft fuel' e path rs with
+                       | Some (e', rs') =>
+                           match go t rs' with
+                           | Some (t', rs'') => Some (e' :: t', rs'')
+                           | None => None
+                           end
+                       | None => None
+                       end
+                   end) l rs with
           | Some (l', rs') => Some (JArr l', rs')
           | None => None
           end
